@@ -6,6 +6,7 @@
 #include <tbox/event/loop.h>
 #include <tbox/event/signal_event.h>
 
+#include <fcntl.h>
 #include <signal.h>
 #include <string.h>
 
@@ -28,6 +29,8 @@ int SIGS[NSG];
 //                                 on different threads; the driver waits for both before anything else happens
 //      addsig <e> <s>             one more signal is added to event e with initialize(signo, mode) (whether or not it is enabled) and it is enabled (again)
 //      rcb <s1> <via> <e2> <s2>   like raise s1, but the first callback of that delivery enables event e2 (through its own loop) and raises s2 from inside the callback
+//      flood <s> <stall_loop> <n>  loop stall_loop is kept busy (it does not serve its pipe) while signal s is raised n times in batches; the other
+//                                 loops keep running: a pipe that fills up on the stalled loop must not cost the other loops a single delivery
 //      craise <e> <k> <s> <via>   a subscription change of event e (which is not subscribed to signal s) is posted to its loop and, without
 //                                 waiting for it, signal s is raised from another thread: the delivery overlaps the change
 void generate(sim::Rng &r, uint64_t seed, const std::string &tier, sim::Plan &p) {
@@ -56,6 +59,7 @@ void generate(sim::Rng &r, uint64_t seed, const std::string &tier, sim::Plan &p)
       for (int k = 0; k < 3 && ((masks[(size_t)e2] & (1L << s1)) || s1 == s2); ++k) s1 = (s1 + 1) % NSG;
       op.kind = "rcb"; op.a = {s1, (long)r.below((uint64_t)nl + 1), e2, s2};
     }
+    else if (x < 63 && nl > 1 && r.chance(400)) { op.kind = "flood"; op.a = {(long)r.below(NSG), (long)r.below((uint64_t)nl), r.range(1100, 1400)}; }
     else if (x < 66) { op.kind = "craise"; op.a = {(long)r.below((uint64_t)nev), (long)r.below(2), (long)r.below(NSG), (long)r.below((uint64_t)nl + 1)}; }
     else if (x < 72 && nl > 1) { op.kind = "pair"; op.a = {(long)r.below((uint64_t)nev), (long)r.below(2), (long)r.below((uint64_t)nev), (long)r.below(2)}; }
     else { op.kind = "raise"; op.a = {(long)r.below(NSG), (long)r.below((uint64_t)nl + 1)}; }
@@ -203,6 +207,49 @@ void execute(const sim::Plan &plan) {
       if (sim::cell_get(C_ACKS) < want) sim::violation("C04/posted-operation-never-ran", "concurrent subscription changes did not complete within 100 s of virtual time");
       W.ev[e1].enabled = en1; W.ev[e2].enabled = en2;
       check_dispositions("concurrent subscription changes on two loops");
+    } else if (op.kind == "flood") {
+      if (W.nl < 2) continue;
+      int s1 = (int)(((op.arg(0) % NSG) + NSG) % NSG), stall = (int)(((op.arg(1) % W.nl) + W.nl) % W.nl);
+      long n = std::max(10L, std::min(2000L, op.arg(2)));
+      std::vector<int> others;
+      bool stall_has = false;
+      for (int e = 0; e < W.nev; ++e) if (W.ev[e].exists && W.ev[e].enabled && (W.ev[e].mask & (1 << s1))) { if (W.ev[e].loop == stall) stall_has = true; else others.push_back(e); }
+      if (others.empty() || !stall_has) continue;          // somebody must be watching on a running loop, and the stalled loop must be a subscriber too
+      // small pipes, so that a little more than a thousand unserved deliveries fill one (every pipe of the process: harmless)
+      for (int fd = 3; fd < 256; ++fd) if (fcntl(fd, F_GETPIPE_SZ) > 0) fcntl(fd, F_SETPIPE_SZ, 4096);
+      uint64_t mark = sim::hist(H_RAISE, s1, (long)others.size());
+      sim::relevant();
+      sim::probe("floods");
+      int signo = SIGS[s1];
+      long want = sim::cell_get(C_ACKS) + 1;
+      W.loops[stall]->runInLoop([] { sim::sleep_ns(400 * 1000000LL); sim::cell_add(C_ACKS, 1); }, "c04.stall");
+      sim::sleep_ns(2 * 1000000);                 // the stalled loop is inside its long task now
+      for (long done = 0; done < n; ) {
+        long batch = std::min(200L, n - done);
+        { sim::NoSched ns; for (long k = 0; k < batch; ++k) raise(signo); }
+        done += batch;
+        sim::sleep_ns(1000000);                   // the running loops drain their pipes
+      }
+      for (int i = 0; i < 100000 && sim::cell_get(C_ACKS) < want; ++i) sim::sleep_ns(1000000);
+      sim::sleep_ns(8 * 1000000);
+      sim::hist(H_QUIET, s1);
+      std::vector<long> c((size_t)W.nev, 0); long sentinel = 0;
+      for (const sim::HEvent &h : sim::history()) {
+        if (h.seq <= mark) continue;
+        if (h.kind == H_CB) { if (h.b != signo) { sim::violation("C04/callback-for-other-signal", "a callback reported a signal that was not raised"); continue; } if (h.a >= 0 && h.a < W.nev) ++c[(size_t)h.a]; }
+        else if (h.kind == H_SENTINEL && h.a == signo) ++sentinel;
+      }
+      for (int e = 0; e < W.nev; ++e) {
+        bool sub = W.ev[e].exists && W.ev[e].enabled && (W.ev[e].mask & (1 << s1));
+        long wantc = !sub ? 0 : W.ev[e].oneshot ? 1 : n;
+        if (!sub && c[(size_t)e] != 0) sim::violation("C04/callback-on-unsubscribed-event", sim::fmt("event %d is disabled, destroyed or not subscribed to signal #%d but its callback ran", e, s1));
+        else if (sub && W.ev[e].loop != stall && c[(size_t)e] != wantc)
+          sim::violation(c[(size_t)e] < wantc ? "C04/subscriber-missed-delivery" : "C04/subscriber-called-twice", sim::fmt("%ld deliveries of signal #%d while loop %d was not serving its pipe produced %ld callbacks on enabled event %d of loop %d, which kept running", n, s1, stall, c[(size_t)e], e, W.ev[e].loop));
+        else if (sub && W.ev[e].loop == stall && c[(size_t)e] > wantc) sim::violation("C04/subscriber-called-twice", sim::fmt("%ld deliveries produced %ld callbacks on event %d", n, c[(size_t)e], e));
+      }
+      if (W.base[s1] <= 1 && sentinel != n) sim::violation("C04/previous-handler-not-chained", sim::fmt("the handler installed before the first subscription was invoked %ld times for %ld deliveries", sentinel, n));
+      for (int e = 0; e < W.nev; ++e) if (W.ev[e].exists && W.ev[e].enabled && (W.ev[e].mask & (1 << s1)) && W.ev[e].oneshot) { W.ev[e].enabled = false; }
+      check_dispositions("after a flood of deliveries");
     } else if (op.kind == "rcb") {
       if (W.nev == 0) continue;
       int s1 = (int)(((op.arg(0) % NSG) + NSG) % NSG), s2 = (int)(((op.arg(3) % NSG) + NSG) % NSG);
